@@ -28,11 +28,30 @@
 //          cm3 <st> <st>           -> v=<0|1> n=<k> lv=<f|untouched> lvs=<eq|ne|untouched> q=.. cnt=.. amb=..
 //          cm3n <st> <st>          -> same with lastValid.first == nullptr (lvs=null)
 //          list <count> <total> <0|1>*total -> v2=<0|1> q2=.. v3=<0|1> first=<i|untouched> q3=..
+// reconfiguration between motion checks (round 10; each -> ok):
+//          swapvc <keep|drop|fn>   a NEW StateValidityChecker object is installed (setStateValidityChecker(ptr) / (function));
+//                                  it starts with the empty predicate; `keep`: the replaced one stays alive (a validator that
+//                                  still asks it shows up as 's' in q= and gets the OLD predicate's answers), `drop`: it is destroyed
+//          setfrac <f>             si->setStateValidityCheckingResolution(f): takes effect at the next setup() only
+//          setfac <slot> <k>       setValidSegmentCountFactor on the pre-order node <slot>: takes effect at once
+//          setup                   si->setup()
+//          setmv <default|discrete> the motion validator is replaced (default: setMotionValidator(nullptr) + setup(), the
+//                                  library installs the space's default; discrete: a fresh DiscreteMotionValidator); counters restart
+//          resetcnt                resetMotionCounter()
+// re-entrancy:
+//          nest <k> <same|thread> <cm2|cm3|cm3n> <st> <st> <counted hint tokens> <counted invalid idx>
+//                                  arms the checker: at the k-th validity question of the NEXT cm call it runs, BEFORE it looks
+//                                  at the state it was handed, a complete checkMotion of this other motion on the same
+//                                  SpaceInformation (in the same thread or in a second, joined thread), under its own
+//                                  predicate.  The next cm line then ends with ` || nested=none` or ` || nested v=.. n=.. ..`.
+//                                  A queried state that is a point of the OTHER motion prints as o<j> in q=.
 #include "common/proto.h"
 #include <map>
 #include <set>
 #include <cmath>
 #include <memory>
+#include <functional>
+#include <thread>
 #include <ompl/base/SpaceInformation.h>
 #include <ompl/base/StateValidityChecker.h>
 #include <ompl/base/DiscreteMotionValidator.h>
@@ -61,73 +80,131 @@ static std::string ser(const ob::StateSpacePtr &sp, const ob::State *s)
     return b;
 }
 
+// everything the harness knows about ONE motion being checked: how to decode a queried state into a subdivision
+// index, what was asked, and (nested motions) the motion's own predicate
+struct Frame
+{
+    long n = 0;
+    const ob::State *endPtr = nullptr;
+    const ob::State *startPtr = nullptr;
+    std::map<std::string, std::vector<long>> table;
+    std::vector<long> rec;
+    unsigned amb = 0;
+    bool r1Decode = false;
+    double r1End = 1.0;
+    bool ownPred = false;       // nested motion: answers come from `invalid` below, not from the checker's predicate
+    std::set<long> invalid;
+    // constrained traversal bookkeeping
+    bool reached = false;
+    std::vector<std::string> geo, geoP;
+    std::vector<long> boxInv;
+    // decode a state of this motion: >= 0 index, -1 none
+    long decode(const ob::StateSpacePtr &sp, const ob::State *st, bool count)
+    {
+        long j = -1;
+        if (st == endPtr)
+            return n;
+        if (startPtr != nullptr && st == startPtr)
+            return 0;      // constrained traversals (Atlas, TangentBundle) look at s1 itself
+        auto it = table.find(ser(sp, st));
+        if (it != table.end())
+        {
+            j = it->second.front();
+            if (it->second.size() > 1 && count)
+                ++amb;
+        }
+        if (r1Decode && j >= 0)
+        {
+            double x = st->as<ob::RealVectorStateSpace::StateType>()->values[0];
+            long jj = std::lround(x * (double)n / r1End);
+            if (jj != j)
+                j = -1;
+        }
+        return j;
+    }
+};
+
+struct Book
+{
+    ob::StateSpacePtr sp;
+    Frame *cur = nullptr;     // the motion whose check is in progress
+    Frame *other = nullptr;   // the other motion of a nested pair (to name a state that belongs to the wrong motion)
+    int currentGen = 0;       // generation of the INSTALLED checker object
+    bool listMode = false;
+    std::map<const ob::State *, long> ptrIndex;
+    // re-entrancy: at the hookAt-th question about hookFrame's motion, run `hook` before looking at the state
+    long hookAt = 0;
+    long asked = 0;
+    Frame *hookFrame = nullptr;
+    std::function<void()> hook;
+};
+
 class Scripted : public ob::StateValidityChecker
 {
 public:
-    Scripted(const ob::SpaceInformationPtr &si) : ob::StateValidityChecker(si), sp(si->getStateSpace())
+    Scripted(const ob::SpaceInformationPtr &si, Book *b, int g) : ob::StateValidityChecker(si), book(b), gen(g)
     {
     }
     bool isValid(const ob::State *st) const override
     {
-        long j = -1;
-        if (listMode)
+        Book &B = *book;
+        Frame *f = B.cur;
+        if (B.listMode)
         {
-            auto it = ptrIndex.find(st);
-            if (it != ptrIndex.end())
+            long j = -1;
+            auto it = B.ptrIndex.find(st);
+            if (it != B.ptrIndex.end())
                 j = it->second;
+            f->rec.push_back(gen != B.currentGen ? -4 : j);
+            if (j < 0)
+                return true;
+            return invalid.count(j) == 0;
         }
-        else if (st == endPtr)
-            j = n;
-        else if (startPtr != nullptr && st == startPtr)
-            j = 0;      // constrained traversals (Atlas, TangentBundle) look at s1 itself
-        else
+        // the nested call comes first: only afterwards does the checker look at the state it was handed
+        if (B.hookAt > 0 && f == B.hookFrame && ++B.asked == B.hookAt)
         {
-            auto it = table.find(ser(sp, st));
-            if (it != table.end())
+            B.hookAt = 0;
+            B.hook();
+        }
+        long j = f->decode(B.sp, st, true);
+        long label = j;
+        bool otherPoint = false;
+        if (j < 0 && B.other != nullptr && B.other != f)
+        {
+            long k = B.other->decode(B.sp, st, false);
+            if (k >= 0)
             {
-                j = it->second.front();
-                if (it->second.size() > 1)
-                    ++amb;
-            }
-            if (r1Decode && j >= 0)
-            {
-                double x = st->as<ob::RealVectorStateSpace::StateType>()->values[0];
-                long jj = std::lround(x * (double)n / r1End);
-                if (jj != j)
-                    j = -1;
+                label = -1000 - k;      // a point of the other motion: o<k>
+                otherPoint = true;
+                j = k;
             }
         }
-        rec.push_back(j);
-        if (boxMode && !listMode)
+        if (gen != B.currentGen)
+            label = -4;                 // a checker that is no longer installed was asked
+        f->rec.push_back(label);
+        if (boxMode && !f->ownPred)
             return !inBox(st);
         if (j < 0)
             return true;
-        return invalid.count(j) == 0;
+        if (otherPoint)
+            return (B.other->ownPred ? B.other->invalid : invalid).count(j) == 0;
+        return (f->ownPred ? f->invalid : invalid).count(j) == 0;
     }
     // geometric predicate: a state is INVALID iff every real lies in its [lo, hi] interval
     bool inBox(const ob::State *st) const
     {
         std::vector<double> r;
-        sp->copyToReals(r, st);
+        book->sp->copyToReals(r, st);
         for (size_t i = 0; i < r.size() && i < box.size(); ++i)
             if (!(box[i].first <= r[i] && r[i] <= box[i].second))
                 return false;
         return true;
     }
+    Book *book;
+    int gen;
     bool boxMode = false;
     std::vector<std::pair<double, double>> box;
-    ob::StateSpacePtr sp;
     std::set<long> invalid;
-    mutable std::vector<long> rec;
-    mutable unsigned amb = 0;
-    bool listMode = false;
-    std::map<const ob::State *, long> ptrIndex;
-    const ob::State *endPtr = nullptr;
-    const ob::State *startPtr = nullptr;
-    long n = 0;
-    std::map<std::string, std::vector<long>> table;
-    bool r1Decode = false;
-    double r1End = 1.0;
 };
 
 // unit sphere in R^3: f(x) = |x| - 1
@@ -152,24 +229,24 @@ public:
 class Tap : public ob::MotionValidator
 {
 public:
-    Tap(const ob::SpaceInformationPtr &si, ob::MotionValidatorPtr real, std::shared_ptr<Scripted> svc)
-      : ob::MotionValidator(si), real_(std::move(real)), svc_(std::move(svc))
+    Tap(const ob::SpaceInformationPtr &si, ob::MotionValidatorPtr real, Book *book)
+      : ob::MotionValidator(si), real_(std::move(real)), book_(book)
     {
     }
     bool checkMotion(const ob::State *s1, const ob::State *s2) const override
     {
         bool r = real_->checkMotion(s1, s2);
-        mark = svc_->rec.size();
+        mark = book_->cur->rec.size();
         return r;
     }
     bool checkMotion(const ob::State *s1, const ob::State *s2, std::pair<ob::State *, double> &lv) const override
     {
         bool r = real_->checkMotion(s1, s2, lv);
-        mark = svc_->rec.size();
+        mark = book_->cur->rec.size();
         return r;
     }
     ob::MotionValidatorPtr real_;
-    std::shared_ptr<Scripted> svc_;
+    Book *book_;
     mutable size_t mark = 0;
 };
 
@@ -179,7 +256,8 @@ static std::string qstr(const std::vector<long> &q)
         return "-";
     std::string s;
     for (size_t i = 0; i < q.size(); ++i)
-        s += (i ? "," : "") + (q[i] == -2 ? std::string("x") : q[i] == -3 ? std::string("p") : q[i] < 0 ? std::string("?") : std::to_string(q[i]));
+        s += (i ? "," : "") + (q[i] == -2 ? std::string("x") : q[i] == -3 ? std::string("p") : q[i] == -4 ? std::string("s") :
+                               q[i] <= -1000 ? "o" + std::to_string(-1000 - q[i]) : q[i] < 0 ? std::string("?") : std::to_string(q[i]));
     return s;
 }
 
@@ -360,7 +438,12 @@ int main()
         std::cout << "bad-header\n";
         return 2;
     }
+    Book book;
+    book.sp = space;
+    Frame F0, F1;      // F0: the motion of the cm line; F1: the motion of a nested call
+    book.cur = &F0;
     std::shared_ptr<Scripted> svc;
+    std::vector<std::shared_ptr<Scripted>> graveyard;   // replaced checkers that are kept alive (swapvc keep)
     ob::SpaceInformationPtr si;
     try
     {
@@ -379,7 +462,7 @@ int main()
         }
         else
             si = std::make_shared<ob::SpaceInformation>(space);
-        svc = std::make_shared<Scripted>(si);
+        svc = std::make_shared<Scripted>(si, &book, 0);
         si->setStateValidityChecker(svc);
         if (valn == "discrete")
             si->setMotionValidator(std::make_shared<ob::DiscreteMotionValidator>(si));
@@ -397,10 +480,6 @@ int main()
         si->freeState(s);
         return (unsigned)r.size();
     }();
-    if (spn == "r1")
-    {
-        svc->r1Decode = true;
-    }
 
     auto parseState = [&](const std::vector<std::string> &t, size_t &i, ob::State *dst) -> bool {
         auto xs = vp::takeCounted(t, i);
@@ -419,6 +498,8 @@ int main()
     };
     ob::State *s1 = si->allocState(), *s2 = si->allocState(), *tmp = si->allocState(), *lvState = si->allocState(),
               *sentinel = si->allocState();
+    // the nested motion and its own scratch / last-valid storage
+    ob::State *n1 = si->allocState(), *n2 = si->allocState(), *tmpN = si->allocState(), *lvStateN = si->allocState();
     {
         std::vector<double> r(nreals, 0.123456789);
         space->copyFromReals(sentinel, r);
@@ -426,48 +507,50 @@ int main()
     const double lvSentinel = 12345.678;
     const bool hintedSpace = spn == "proj" || spn == "tb" || spn == "atlas" || spn == "dubins" || spn == "dubinssym" || spn == "rs" || spn == "owen" || spn == "vana" ||
                              spn == "vanaowen";
-    auto mv = si->getMotionValidator();
+    const bool d3Space = spn == "owen" || spn == "vana" || spn == "vanaowen";
+    ob::MotionValidatorPtr mv;
     std::shared_ptr<Tap> tap;
-    if (tbSpace)
-    {
-        tap = std::make_shared<Tap>(si, mv, svc);
-        si->setMotionValidator(tap);   // counters are still read from the real validator `mv`
-    }
+    // (tb) the validator is wrapped so that the questions of TangentBundleSpaceInformation's own wrapper can be told apart;
+    // counters are still read from the real validator `mv`
+    auto retap = [&]() {
+        mv = si->getMotionValidator();
+        if (tbSpace)
+        {
+            tap = std::make_shared<Tap>(si, mv, &book);
+            si->setMotionValidator(tap);
+        }
+    };
+    retap();
 
-    bool projReached = false;
-    std::vector<std::string> projGeo;   // serialised reference traversal g_0 .. g_m
-    std::vector<std::string> projGeoP;  // (tb) the same states after project()
     const bool atlasLike = spn == "atlas" || spn == "tb";
-    std::vector<long> boxInv;
-    auto invstr = [&]() -> std::string {
-        return (svc->boxMode ? " inv=" + qstr(boxInv) : std::string()) +
-               (projSpace ? std::string(" reached=") + (projReached ? "1" : "0") + " sat=" +
-                                (space->as<ob::ConstrainedStateSpace>()->getConstraint()->isSatisfied(s2) ? "1" : "0") :
+    auto invstr = [&](Frame &F, const ob::State *b) -> std::string {
+        return (svc->boxMode && !F.ownPred ? " inv=" + qstr(F.boxInv) : std::string()) +
+               (projSpace ? std::string(" reached=") + (F.reached ? "1" : "0") + " sat=" +
+                                (space->as<ob::ConstrainedStateSpace>()->getConstraint()->isSatisfied(b) ? "1" : "0") :
                             std::string());
     };
     // constrained traversal that gave up for geometric reasons: the last candidate it looked at (asked about, then
     // rejected: step too long / wandered / no closer) is not one of its states; shown as 'x'
-    auto relabel = [&]() {
-        if (projSpace && !projReached)
+    auto relabel = [&](Frame &F) {
+        if (projSpace && !F.reached)
         {
             // (skip the tb wrapper's 'p')
-            size_t k = svc->rec.size();
-            if (k > 0 && svc->rec[k - 1] == -3)
+            size_t k = F.rec.size();
+            if (k > 0 && F.rec[k - 1] == -3)
                 --k;
-            if (k > 0 && svc->rec[k - 1] == -1)
-                svc->rec[k - 1] = -2;
+            if (k > 0 && F.rec[k - 1] == -1)
+                F.rec[k - 1] = -2;
         }
     };
-    // fills svc's table for the pair (s1, s2)
-    auto prepare = [&]() -> long {
-        long n = (long)space->validSegmentCount(s1, s2);
-        svc->listMode = false;
-        svc->endPtr = s2;
-        svc->n = n;
-        svc->table.clear();
-        svc->rec.clear();
-        svc->amb = 0;
-        svc->startPtr = projSpace ? s1 : nullptr;
+    // fills the frame's table for the pair (a, b)
+    auto prepare = [&](Frame &F, const ob::State *a, const ob::State *b, ob::State *tmpS) -> long {
+        long n = (long)space->validSegmentCount(a, b);
+        F.endPtr = b;
+        F.n = n;
+        F.table.clear();
+        F.rec.clear();
+        F.amb = 0;
+        F.startPtr = projSpace ? a : nullptr;
         if (projSpace)
         {
             // subdivision of a constrained motion = the states of the manifold traversal itself, computed here with
@@ -481,7 +564,7 @@ int main()
                 for (auto *g : geo)
                     space->freeState(g);
                 geo.clear();
-                projReached = space->as<ob::ConstrainedStateSpace>()->discreteGeodesic(s1, s2, true, &geo);
+                F.reached = space->as<ob::ConstrainedStateSpace>()->discreteGeodesic(a, b, true, &geo);
                 std::vector<std::string> cur;
                 for (auto *g : geo)
                     cur.push_back(ser(space, g));
@@ -491,54 +574,55 @@ int main()
                     break;
             }
             n = (long)geo.size();        // m + 1 with m = geo.size() - 1
-            svc->n = n;
-            projGeo.clear();
-            projGeoP.clear();
+            F.n = n;
+            F.geo.clear();
+            F.geoP.clear();
             for (size_t j = 0; j < geo.size(); ++j)
             {
-                projGeo.push_back(ser(space, geo[j]));
+                F.geo.push_back(ser(space, geo[j]));
                 if (j >= 1)
-                    svc->table[ser(space, geo[j])].push_back((long)j);
+                    F.table[ser(space, geo[j])].push_back((long)j);
                 if (tbSpace)
                 {
                     // what TangentBundleSpaceInformation hands back is the re-projection of a traversal state
                     space->as<ob::TangentBundleStateSpace>()->project(geo[j]);
-                    projGeoP.push_back(ser(space, geo[j]));
+                    F.geoP.push_back(ser(space, geo[j]));
                 }
                 space->freeState(geo[j]);
             }
-            svc->rec.clear();
-            svc->amb = 0;
+            F.rec.clear();
+            F.amb = 0;
         }
         else if (n >= 1 && n <= 100000)
             for (long j = 0; j <= n; ++j)
             {
-                space->interpolate(s1, s2, (double)j / (double)n, tmp);
-                svc->table[ser(space, tmp)].push_back(j);
+                space->interpolate(a, b, (double)j / (double)n, tmpS);
+                F.table[ser(space, tmpS)].push_back(j);
             }
-        boxInv.clear();
-        if (svc->boxMode)
+        F.boxInv.clear();
+        if (svc->boxMode && !F.ownPred)
         {
             // truth table of the geometric predicate on the harness' own subdivision points
             if (n == 0)
             {
-                if (svc->inBox(s2))
-                    boxInv.push_back(0);
+                if (svc->inBox(b))
+                    F.boxInv.push_back(0);
             }
             else
                 for (long j = 1; j <= n; ++j)
                 {
                     if (j < n)
-                        space->interpolate(s1, s2, (double)j / (double)n, tmp);
-                    if (svc->inBox(j < n ? tmp : s2))
-                        boxInv.push_back(j);
+                        space->interpolate(a, b, (double)j / (double)n, tmpS);
+                    if (svc->inBox(j < n ? tmpS : b))
+                        F.boxInv.push_back(j);
                 }
         }
         // the r1 arithmetic decode only makes sense for s1 = 0
+        F.r1Decode = false;
         if (spn == "r1")
         {
-            svc->r1End = s2->as<ob::RealVectorStateSpace::StateType>()->values[0];
-            svc->r1Decode = s1->as<ob::RealVectorStateSpace::StateType>()->values[0] == 0.0 && svc->r1End != 0.0;
+            F.r1End = b->as<ob::RealVectorStateSpace::StateType>()->values[0];
+            F.r1Decode = a->as<ob::RealVectorStateSpace::StateType>()->values[0] == 0.0 && F.r1End != 0.0;
         }
         return n;
     };
@@ -546,6 +630,74 @@ int main()
         return "cnt=" + std::to_string(a0) + "/" + std::to_string(b0) + "->" + std::to_string(mv->getValidMotionCount()) +
                "/" + std::to_string(mv->getInvalidMotionCount());
     };
+    // one complete checkMotion call (cm2 | cm3 | cm3n) on the motion (a, b) whose frame F has been prepared; the result line
+    auto runCall = [&](const std::string &op, Frame &F, const ob::State *a, const ob::State *b, ob::State *lvBuf,
+                       ob::State *tmpS, long n) -> std::string {
+        Frame *savedCur = book.cur;
+        book.cur = &F;
+        unsigned a0 = mv->getValidMotionCount(), b0 = mv->getInvalidMotionCount();
+        std::ostringstream os;
+        if (op == "cm2")
+        {
+            bool v = si->checkMotion(a, b);
+            relabel(F);
+            os << "v=" << (v ? 1 : 0) << " n=" << n << " q=" << qstr(F.rec) << " " << cnt(a0, b0) << " amb=" << F.amb
+               << invstr(F, b);
+        }
+        else
+        {
+            std::pair<ob::State *, double> lastValid;
+            space->copyState(lvBuf, sentinel);
+            lastValid.first = op == "cm3" ? lvBuf : nullptr;
+            lastValid.second = lvSentinel;
+            bool v = si->checkMotion(a, b, lastValid);
+            // TangentBundleSpaceInformation re-projects the state it hands back after an invalid motion; project()
+            // looks at the validity of the result: shown as 'p'
+            if (tbSpace)
+                for (size_t k = tap->mark; k < F.rec.size(); ++k)
+                    F.rec[k] = -3;
+            relabel(F);
+            std::string lv, lvs;
+            if (vp::bits(lastValid.second) == vp::bits(lvSentinel))
+                lv = "untouched";
+            else
+                lv = vp::bits(lastValid.second);
+            if (op == "cm3n")
+                lvs = "null";
+            else if (ser(space, lvBuf) == ser(space, sentinel))
+                lvs = "untouched";
+            else if (projSpace)
+            {
+                // which state of the traversal was handed back
+                lvs = "?";
+                std::string bb = ser(space, lvBuf);
+                for (size_t k = 0; k < F.geo.size(); ++k)
+                    if (F.geo[k] == bb || (k < F.geoP.size() && F.geoP[k] == bb))
+                    {
+                        lvs = "g" + std::to_string(k);
+                        break;
+                    }
+            }
+            else
+            {
+                space->interpolate(a, b, lastValid.second, tmpS);
+                lvs = ser(space, tmpS) == ser(space, lvBuf) ? "eq" : "ne";
+            }
+            os << "v=" << (v ? 1 : 0) << " n=" << n << " lv=" << lv << " lvs=" << lvs << " q=" << qstr(F.rec) << " "
+               << cnt(a0, b0) << " amb=" << F.amb << invstr(F, b);
+        }
+        book.cur = savedCur;
+        return os.str();
+    };
+    // an armed nested call (op `nest`): consumed by the next cm line
+    struct
+    {
+        bool armed = false;
+        long k = 0;
+        bool thread = false;
+        std::string form;
+        std::set<long> inv;
+    } nest;
 
     while (vp::readLine(line))
     {
@@ -597,6 +749,97 @@ int main()
             }
             svc->box = bx;
             svc->boxMode = true;
+            std::cout << "ok\n";
+        }
+        else if (op == "swapvc" && t.size() == 2 && (t[1] == "keep" || t[1] == "drop" || t[1] == "fn"))
+        {
+            // a NEW checker object with the empty predicate; whoever still asks the old one is answered from the old predicate
+            auto nsvc = std::make_shared<Scripted>(si, &book, ++book.currentGen);
+            if (t[1] == "keep")
+                graveyard.push_back(svc);
+            if (t[1] == "fn")
+                si->setStateValidityChecker([nsvc](const ob::State *s) { return nsvc->isValid(s); });
+            else
+                si->setStateValidityChecker(nsvc);
+            svc = nsvc;
+            std::cout << "ok\n";
+        }
+        else if (op == "setfrac" && t.size() == 2 && vp::parseBits(t[1]) && !projSpace)
+        {
+            try
+            {
+                si->setStateValidityCheckingResolution(*vp::parseBits(t[1]));
+                std::cout << "ok\n";
+            }
+            catch (const std::exception &e)
+            {
+                std::cout << "bad-op\n";
+            }
+        }
+        else if (op == "setfac" && t.size() == 3 && vp::parseNat(t[1]) && vp::parseNat(t[2]) && *vp::parseNat(t[1]) < nodes.size() &&
+                 *vp::parseNat(t[2]) >= 1 && *vp::parseNat(t[2]) <= 1000 && !projSpace)
+        {
+            nodes[*vp::parseNat(t[1])]->setValidSegmentCountFactor((unsigned)*vp::parseNat(t[2]));
+            std::cout << "ok\n";
+        }
+        else if (op == "setup" && t.size() == 1)
+        {
+            si->setup();
+            std::cout << "ok\n";
+        }
+        else if (op == "setmv" && t.size() == 2 && (t[1] == "default" || (t[1] == "discrete" && !projSpace && !d3Space)))
+        {
+            if (t[1] == "default")
+            {
+                si->setMotionValidator(ob::MotionValidatorPtr());
+                si->setup();      // installs the space's default validator
+            }
+            else
+                si->setMotionValidator(std::make_shared<ob::DiscreteMotionValidator>(si));
+            retap();
+            std::cout << "ok\n";
+        }
+        else if (op == "resetcnt" && t.size() == 1)
+        {
+            mv->resetMotionCounter();
+            std::cout << "ok\n";
+        }
+        else if (op == "nest" && t.size() >= 4)
+        {
+            auto k = vp::parseNat(t[1]);
+            size_t i = 4;
+            bool ok = k && *k >= 1 && *k <= 1000000 && (t[2] == "same" || t[2] == "thread") &&
+                      (t[3] == "cm2" || t[3] == "cm3" || t[3] == "cm3n") && !atlasLike && parseState(t, i, n1) &&
+                      parseState(t, i, n2);
+            std::set<long> inv;
+            if (ok)
+            {
+                auto h = vp::takeCounted(t, i);
+                auto iv = ok ? vp::takeCounted(t, i) : std::nullopt;
+                ok = h && iv && i == t.size() && h->size() <= 4;
+                if (ok)
+                    for (auto &x : *h)
+                        ok = ok && vp::parseNat(x);
+                if (ok)
+                    for (auto &x : *iv)
+                    {
+                        auto v = vp::parseNat(x);
+                        if (!v)
+                            ok = false;
+                        else
+                            inv.insert((long)*v);
+                    }
+            }
+            if (!ok)
+            {
+                std::cout << "bad-op\n";
+                continue;
+            }
+            nest.armed = true;
+            nest.k = (long)*k;
+            nest.thread = t[2] == "thread";
+            nest.form = t[3];
+            nest.inv = inv;
             std::cout << "ok\n";
         }
         else if (op == "gms" && t.size() >= 5)
@@ -692,16 +935,19 @@ int main()
                 std::cout << "bad-op\n";
                 continue;
             }
-            long n = prepare();
+            book.listMode = false;
+            book.cur = &F0;
+            F0.ownPred = false;
+            long n = prepare(F0, s1, s2, tmp);
             unsigned a0 = mv->getValidMotionCount(), b0 = mv->getInvalidMotionCount();
             std::string before = ser(space, lvState);
             std::pair<ob::State *, double> lastValid(lvState, lvSentinel);
             bool v = si->checkMotion(s1, s2, lastValid);
-            relabel();
+            relabel(F0);
             std::cout << "v=" << (v ? 1 : 0) << " n=" << n << " lv="
                       << (vp::bits(lastValid.second) == vp::bits(lvSentinel) ? std::string("untouched") : vp::bits(lastValid.second))
-                      << " first=" << (ser(space, lvState) == before ? "same" : "changed") << " q=" << qstr(svc->rec) << " "
-                      << cnt(a0, b0) << " amb=" << svc->amb << invstr() << "\n";
+                      << " first=" << (ser(space, lvState) == before ? "same" : "changed") << " q=" << qstr(F0.rec) << " "
+                      << cnt(a0, b0) << " amb=" << F0.amb << invstr(F0, s2) << "\n";
         }
         else if (op == "seg" || op == "cm2" || op == "cm3" || op == "cm3n")
         {
@@ -724,59 +970,46 @@ int main()
                 std::cout << "\n";
                 continue;
             }
-            long n = prepare();
-            unsigned a0 = mv->getValidMotionCount(), b0 = mv->getInvalidMotionCount();
-            if (op == "cm2")
+            book.listMode = false;
+            book.cur = &F0;
+            F0.ownPred = false;
+            long n = prepare(F0, s1, s2, tmp);
+            const bool armed = nest.armed;
+            std::string nestedOut;
+            if (armed)
             {
-                bool v = si->checkMotion(s1, s2);
-                relabel();
-                std::cout << "v=" << (v ? 1 : 0) << " n=" << n << " q=" << qstr(svc->rec) << " " << cnt(a0, b0)
-                          << " amb=" << svc->amb << invstr() << "\n";
+                F1.ownPred = true;
+                F1.invalid = nest.inv;
+                long nn = prepare(F1, n1, n2, tmpN);
+                book.other = &F1;
+                book.hookFrame = &F0;
+                book.hookAt = nest.k;
+                book.asked = 0;
+                book.hook = [&, nn]() {
+                    auto body = [&, nn]() {
+                        book.other = &F0;      // a nested question about a point of the OUTER motion is named as such
+                        nestedOut = runCall(nest.form, F1, n1, n2, lvStateN, tmpN, nn);
+                        book.other = &F1;
+                    };
+                    if (nest.thread)
+                    {
+                        std::thread th(body);
+                        th.join();
+                    }
+                    else
+                        body();
+                };
             }
-            else
+            std::string out = runCall(op, F0, s1, s2, lvState, tmp, n);
+            if (armed)
             {
-                std::pair<ob::State *, double> lastValid;
-                space->copyState(lvState, sentinel);
-                lastValid.first = op == "cm3" ? lvState : nullptr;
-                lastValid.second = lvSentinel;
-                size_t before = svc->rec.size();
-                bool v = si->checkMotion(s1, s2, lastValid);
-                // TangentBundleSpaceInformation re-projects the state it hands back after an invalid motion; project()
-                // looks at the validity of the result: shown as 'p'
-                (void)before;
-                if (tbSpace)
-                    for (size_t k = tap->mark; k < svc->rec.size(); ++k)
-                        svc->rec[k] = -3;
-                relabel();
-                std::string lv, lvs;
-                if (vp::bits(lastValid.second) == vp::bits(lvSentinel))
-                    lv = "untouched";
-                else
-                    lv = vp::bits(lastValid.second);
-                if (op == "cm3n")
-                    lvs = "null";
-                else if (ser(space, lvState) == ser(space, sentinel))
-                    lvs = "untouched";
-                else if (projSpace)
-                {
-                    // which state of the traversal was handed back
-                    lvs = "?";
-                    std::string b = ser(space, lvState);
-                    for (size_t k = 0; k < projGeo.size(); ++k)
-                        if (projGeo[k] == b || (k < projGeoP.size() && projGeoP[k] == b))
-                        {
-                            lvs = "g" + std::to_string(k);
-                            break;
-                        }
-                }
-                else
-                {
-                    space->interpolate(s1, s2, lastValid.second, tmp);
-                    lvs = ser(space, tmp) == ser(space, lvState) ? "eq" : "ne";
-                }
-                std::cout << "v=" << (v ? 1 : 0) << " n=" << n << " lv=" << lv << " lvs=" << lvs << " q=" << qstr(svc->rec)
-                          << " " << cnt(a0, b0) << " amb=" << svc->amb << invstr() << "\n";
+                out += nestedOut.empty() ? std::string(" || nested=none") : " || nested " + nestedOut;
+                book.hookAt = 0;
+                book.other = nullptr;
+                book.hook = nullptr;
+                nest.armed = false;
             }
+            std::cout << out << "\n";
         }
         else if (op == "list" && t.size() >= 3 && vp::parseNat(t[1]) && vp::parseNat(t[2]))
         {
@@ -803,28 +1036,29 @@ int main()
             std::vector<ob::State *> states(total);
             std::set<long> saved = svc->invalid;
             svc->invalid = inv;
-            svc->listMode = true;
-            svc->ptrIndex.clear();
+            book.cur = &F0;
+            book.listMode = true;
+            book.ptrIndex.clear();
             for (size_t k = 0; k < total; ++k)
             {
                 states[k] = si->allocState();
                 space->copyState(states[k], sentinel);
-                svc->ptrIndex[states[k]] = (long)k;
+                book.ptrIndex[states[k]] = (long)k;
             }
-            svc->rec.clear();
+            F0.rec.clear();
             bool v2 = si->checkMotion(states, (unsigned)count);
-            std::string q2 = qstr(svc->rec);
-            svc->rec.clear();
+            std::string q2 = qstr(F0.rec);
+            F0.rec.clear();
             unsigned first = 4294967295u;
             bool v3 = si->checkMotion(states, (unsigned)count, first);
-            std::string q3 = qstr(svc->rec);
+            std::string q3 = qstr(F0.rec);
             std::cout << "v2=" << (v2 ? 1 : 0) << " q2=" << q2 << " v3=" << (v3 ? 1 : 0)
                       << " first=" << (first == 4294967295u ? std::string("untouched") : std::to_string(first))
                       << " q3=" << q3 << "\n";
             for (auto *s : states)
                 si->freeState(s);
-            svc->listMode = false;
-            svc->ptrIndex.clear();
+            book.listMode = false;
+            book.ptrIndex.clear();
             svc->invalid = saved;
         }
         else
@@ -835,5 +1069,9 @@ int main()
     si->freeState(tmp);
     si->freeState(lvState);
     si->freeState(sentinel);
+    si->freeState(n1);
+    si->freeState(n2);
+    si->freeState(tmpN);
+    si->freeState(lvStateN);
     return 0;
 }
